@@ -20,6 +20,7 @@ import (
 	"fmt"
 	"runtime"
 	"sync"
+	"sync/atomic"
 	"time"
 	"unsafe"
 )
@@ -175,6 +176,12 @@ type sim struct {
 // cur is the active simulation, nil in pass-through mode. It is only written by
 // Run (before the root task starts and after every task has stopped running).
 var cur *sim
+
+var progress uint64
+
+// Progress returns a counter that advances with every scheduler step (read by
+// the worker's real-time watchdog, which lives outside the bubble).
+func Progress() uint64 { return atomic.LoadUint64(&progress) }
 
 // Active reports whether a simulation is running.
 //
@@ -637,6 +644,7 @@ func Run(cfg Config, wait func(), root func()) *Report {
 		t := s.parked[i]
 		s.removeParked(i)
 		s.steps++
+		atomic.AddUint64(&progress, 1)
 		s.hash = (s.hash ^ uint64(t.id+1)) * 0x100000001b3
 		s.hash = (s.hash ^ uint64(t.site+1)) * 0x100000001b3
 		s.lastRun = t
